@@ -273,6 +273,14 @@ PROPS = {
         level="proof",
         technique="Lean 4 proof of the 2-bit packing (all indices, any size), of the CCCD access function and of the "
                   "position permutation + differential correspondence with real servers with 1/4/5/9 CCCDs",
+        level_text="flags_get_set: the 2-bit packing is exact for every index and array size (UInt8 bit operations); "
+                   "cccd_write_exact / cccd_read_after_write / callback_iff_changed: the CCCD access function stores and returns "
+                   "exactly the two written bits and reports a change iff the stored value changed; cccd_isolation and "
+                   "cccd_positions_distinct: other connections and other CCCDs are untouched for every priority assignment. "
+                   "Tied to the code by differential runs on servers with 1/4/5/9 CCCDs with and without priorities.",
+        level_note="Trusted: Lean kernel + standard axioms; the priorities computed by outgoing_priority.hpp are an input of the "
+                   "model (printed by the real templates, compared on every session); Read By Type / Read Multiple / notification "
+                   "paths to the configuration are not modelled.",
         design_ref="§5 C09",
         assumptions=["servers without fixed handles", "bound characteristic values"],
     ),
